@@ -32,6 +32,7 @@ type job struct {
 type failedCase struct {
 	Key, Msg string
 	Job      job
+	Weak     bool // depends on deliveries of an earlier batch of the shard process: the replay is the whole batch, no re-run
 }
 
 // shardReply is what one shard process reports to the parent.
@@ -52,7 +53,7 @@ const setSize = 6 // jobs generated per case batch: |backends| x |flows|
 func explore(r *runner.Run, i, n int, deadline time.Time) *shardReply {
 	rep := &shardReply{Counters: map[string]int64{}, Via: map[string]int64{}}
 	distinct := map[string]struct{}{}
-	failed := map[string]bool{}
+	failed := map[string]int{}
 	idx := -1
 	generate(r, func(j job) bool {
 		idx++
@@ -84,9 +85,28 @@ func explore(r *runner.Run, i, n int, deadline time.Time) *shardReply {
 			rep.Samples = append(rep.Samples, res.samples...)
 		}
 		for _, f := range res.fails {
-			if !failed[f.Key] {
-				failed[f.Key] = true
-				rep.Fails = append(rep.Fails, failedCase{Key: f.Key, Msg: f.Msg, Job: job{Backend: j.Backend, Flow: j.Flow, Cases: []mcase{j.Cases[f.Case]}}})
+			at, seen := failed[f.Key]
+			if seen && !(rep.Fails[at].Weak && !f.Weak) {
+				continue
+			}
+			idx := append(append([]int{}, f.With...), f.Case) // the failing case and the cases it depends on, in batch order
+			sort.Ints(idx)
+			if f.Weak {
+				idx = idx[:0]
+				for k := range j.Cases {
+					idx = append(idx, k)
+				}
+			}
+			var cs []mcase
+			for _, k := range idx {
+				cs = append(cs, j.Cases[k])
+			}
+			fc := failedCase{Key: f.Key, Msg: f.Msg, Job: job{Backend: j.Backend, Flow: j.Flow, Cases: cs}, Weak: f.Weak}
+			if seen {
+				rep.Fails[at] = fc
+			} else {
+				failed[f.Key] = len(rep.Fails)
+				rep.Fails = append(rep.Fails, fc)
 			}
 		}
 		return len(rep.Infra) == 0
@@ -158,10 +178,21 @@ func TestCheck(t *testing.T) {
 		jobs += rep.Jobs
 		fails = append(fails, rep.Fails...)
 	}
-	size := func(f failedCase) int { c := f.Job.Cases[0]; return len(c.Hdrs)*1000 + len(c.BodyHex)/2 + c.N*2000 }
+	size := func(f failedCase) int {
+		n := 0
+		for _, c := range f.Job.Cases {
+			n += 100000 + len(c.Hdrs)*1000 + len(c.BodyHex)/2 + c.N*2000
+		}
+		return n
+	}
+	// re-runs happen under the conditions of the shard that found the failure (one P)
+	runtime.GOMAXPROCS(1)
 	sort.Slice(fails, func(a, b int) bool { // per key, the smallest failing case becomes the replay
 		if fails[a].Key != fails[b].Key {
 			return fails[a].Key < fails[b].Key
+		}
+		if fails[a].Weak != fails[b].Weak {
+			return !fails[a].Weak
 		}
 		if size(fails[a]) != size(fails[b]) {
 			return size(fails[a]) < size(fails[b])
@@ -175,7 +206,7 @@ func TestCheck(t *testing.T) {
 			continue
 		}
 		reported[f.Key] = true
-		r.Violation(f.Key, f.Msg, f.Job, func() bool { // re-run exactly that case in a fresh application
+		recheck := func() bool { // re-run exactly these cases in a fresh application
 			again := runBatch(0, f.Job.Backend, f.Job.Flow, f.Job.Cases)
 			for _, g := range again.fails {
 				if g.Key == f.Key {
@@ -183,7 +214,11 @@ func TestCheck(t *testing.T) {
 				}
 			}
 			return false
-		})
+		}
+		if f.Weak {
+			recheck = nil // depends on deliveries of an earlier batch of the shard process
+		}
+		r.Violation(f.Key, f.Msg, f.Job, recheck)
 	}
 
 	r.Set("batches", jobs)
@@ -196,7 +231,7 @@ func TestCheck(t *testing.T) {
 		"every accepted message is observed at admin list, first delivery, nack+redelivery, (sqlite) close+reopen then two more deliveries; one evaluation = one observation or one accept/reject decision compared with the reference; "+
 		"distinct = (way in, route, framing, path out, phase, backend, body class, header atom set, verdict); non-trivial = the case went through a real enqueue and a real delivery or a real rejection")
 	r.Assume("Host, Content-Length and Transfer-Encoding are message framing, not part of the 'received headers' compared (they may or may not be stored)")
-	r.Assume("push: only the headers the property defines are compared (every received non-sensitive header must arrive with the reference value, no sensitive header with a received value); headers the deliverer adds for itself are ignored")
+	r.Assume("push: the request seen by the target must carry every stored header of the message with the reference value, no sensitive header with a received value, and otherwise only framing (Host, Content-Length, Transfer-Encoding) or the deliverer's/transport's own headers: User-Agent, Accept-Encoding, Content-Type, X-Hookaido-Signature, X-Hookaido-Timestamp (sign hmac defaults; signing is not configured here), Traceparent, Tracestate, Baggage; any other header is a violation (header-foreign)")
 	r.Assume("publish: header names are compared after canonicalisation (the property defines canonicalisation for ingress; publish stores the caller's JSON map), Authorization/Cookie are not sent through publish (the strip rule is stated for ingress)")
 	r.Assume("header values are valid UTF-8 without leading/trailing whitespace; forward-auth copy_headers carry one value each and do not collide with a client header")
 	r.Assume("publish may refuse a payload of 1 MiB or more that is within max_body (admin request-size cap); that is counted in publish_unaccepted_within_max_body, not judged")
@@ -219,6 +254,7 @@ func replay(r *runner.Run, path string) {
 		r.Infra("replay: %v", err)
 		return
 	}
+	runtime.GOMAXPROCS(1)
 	res := runBatch(0, f.Replay.Backend, f.Replay.Flow, f.Replay.Cases)
 	for _, m := range res.infra {
 		r.Infra("%s", m)
